@@ -1447,13 +1447,19 @@ impl<'a, M: Matcher, W: WriteColor> StandardImpl<'a, M, W> {
     }
 
     fn write_binary_message(&self, offset: u64) -> io::Result<()> {
-        if self.sink.match_count == 0 {
+        let this_search_written = self.wtr().borrow().count() > 0;
+        let bin = self.searcher.binary_detection();
+        // When the search of this file was cut short, say so whenever
+        // something was printed for it, even if no line of it matched (the
+        // lines printed may all be contextual, e.g., with --passthru).
+        // Otherwise, the output would silently look complete.
+        let cut_short = bin.quit_byte().is_some() && this_search_written;
+        if self.sink.match_count == 0 && !cut_short {
             return Ok(());
         }
         // When nothing else was printed for this search, this message is its
         // only output and, like any other output, is separated from what
         // earlier searches printed.
-        let this_search_written = self.wtr().borrow().count() > 0;
         if !this_search_written {
             if let Some(ref sep) = *self.config().separator_search {
                 let ever_written = self.wtr().borrow().total_count() > 0;
@@ -1464,15 +1470,17 @@ impl<'a, M: Matcher, W: WriteColor> StandardImpl<'a, M, W> {
             }
         }
 
-        let bin = self.searcher.binary_detection();
         if let Some(byte) = bin.quit_byte() {
             if let Some(path) = self.path() {
                 self.write_path_hyperlink(path)?;
                 self.write(b": ")?;
             }
+            let after_match =
+                if self.sink.match_count > 0 { " after match" } else { "" };
             let remainder = format!(
-                "WARNING: stopped searching binary file after match \
+                "WARNING: stopped searching binary file{} \
                  (found {:?} byte around offset {})\n",
+                after_match,
                 [byte].as_bstr(),
                 offset,
             );
